@@ -81,6 +81,7 @@ Fails(e) == CASE e.ev = "enc" -> EncFails(e)
               [] e.ev = "dec" -> DecFails(e)
               [] e.ev = "stream" -> StreamFails(e)
               [] e.ev = "lookup" -> LookupFails(e)
+              [] e.ev = "cmdtype" -> (IF e.err = "" /\ e.ty = PayloadTypeName(e.dir, e.cid) THEN <<>> ELSE <<"C06.decode", "C07.stream", "C05.recover">>)
               [] e.ev = "hang" -> <<e.prop \o ".hang">>    \* a call that never returned (recorded by the watchdog of the harness)
               [] OTHER -> <<"unknown-event">>
 
